@@ -60,7 +60,7 @@ CLAIMS = {
         "through KSI_TLV (parse, nested lists, serialize, clone, writeBytes into buffers of needed size -2..+5), KSI_TlvElement and the KSI_FTLV memory, file and "
         "socket readers; StreamRead(tag, len, buf) states when a stream reader with a buf-byte buffer delivers the element at the head of the stream (iff header + "
         "payload fit; exactly its bytes consumed; at most the header consumed on refusal) and is replayed with buffers below, at and above each element size.",
-   note="Bounds: tags {1,31,32,8191} x flags x payloads, nodes with <=2 children, depth 2 in thorough; header cases tags x lengths {0..65537}; two-child sizes around 65535; 256 first bytes x all second bytes in TLC (5 sampled in replay). Defect F-C09-1 fixed.",
+   note="A refused element is asked a second time (must be refused again) and serialized (must give its input bytes). Bounds: tags {1,31,32,8191} x flags x payloads, nodes with <=2 children, depth 2 in thorough; header cases tags x lengths {0..65537}; two-child sizes around 65535; 256 first bytes x all second bytes in TLC (5 sampled in replay). Defect F-C09-1 fixed.",
    technique="TLC-checked TLA+ codec specification; exhaustive TLC-generated case tables replayed into the three libksi codecs"),
  "C01": dict(level="model_checking", design_ref="DESIGN.md 4/C01",
    text="Signature.tla states internal consistency twice: declaratively (the KSI conditions, each with its documented code, Allowed verdict sets) and "
@@ -88,7 +88,7 @@ CLAIMS = {
         "position of six valid base objects; every mutated object is concretised and offered to the typed parsers, accept/reject must agree. Second half: an "
         "unknown non-critical element inserted at every position of reference-built consistent signatures must leave parsing, re-serialization and the "
         "internal verdict unchanged outside hashed/signed content.",
-   note="Families: signature, aggregation response PDU v2 (response / error / config payloads), extension response PDU v2; v1 PDUs and the publications file are not in the table yet. 1.9e3 mutated objects + insertions at every position of 3/25 signatures. Defects F-C10-1 and F-C12-2 fixed.",
+   note="Utf8.tla: every octet string of <= 3 (quick) / 4 (thorough) octets over 14 class representatives, with and without terminator, as error message, header login id and publication reference. Families: signature, aggregation response PDU v2 (response / error / config payloads), extension response PDU v2; v1 PDUs and the publications file are not in the table yet. 1.9e3 mutated objects + insertions at every position of 3/25 signatures. Defects F-C10-1 and F-C12-2 fixed.",
    technique="TLC-evaluated declarative schema over TLC-enumerated mutations, replayed into the typed parsers of libksi"),
  "C17": dict(level="model_checking", design_ref="DESIGN.md 4/C17",
    text="PubString.tla defines CRC-32 bit by bit (16-bit limbs), base-32 packing/unpacking with '=' padding and dash grouping, ToString and FromString; for every "
